@@ -146,6 +146,19 @@ def bounded(tier, seed, R):
         for x in CELLS:
             R.guard('criteria_parser/post#0:post_check_total_and_exact',
                     lambda: bool(criteria_parser(c)(x)) == selected_full(c, x), {'criteria': c, 'cell': x})
+    # wildcard criteria exhaustively: every pattern up to length 3 (4 thorough) over {a, b, ?, *}, bare and behind = / <>,
+    # against every text up to length 3 (4) over {a, B, ?} and a few non-text cells
+    import itertools
+    plen = 3 if not thorough else 4
+    pats = [''.join(t) for k in range(1, plen + 1) for t in itertools.product('ab?*', repeat=k)]
+    pats = [p_ for p_ in pats if '*' in p_ or '?' in p_]
+    texts = [''.join(t) for k in range(0, plen + 1) for t in itertools.product('aB?', repeat=k)] + [5, None, True]
+    for p_ in pats:
+        for pre in ('', '=', '<>'):
+            crit = pre + p_
+            for x in texts:
+                R.guard('bounded/wildcard_criteria_exhaustive',
+                        lambda: bool(criteria_parser(crit)(x)) == selected_full(crit, x), {'criteria': crit, 'cell': x})
     shapes = [(1, 1), (1, 3), (3, 1), (2, 2), (4, 3)]
     n = 150 if not thorough else 4000
     R.bound = f'{len(CRITERIA)} criteria x {len(CELLS)} cells; {n} random (ranges, criteria) per shape {shapes}'
